@@ -153,9 +153,9 @@ FACTORS = [
     ("sample", ["tpcn", "rwm"]),
     ("resample", ["mult", "syst"]),
     ("clustering", [False, True]),
-    ("vv", [None, 0.5]),
+    ("vv", [None, 0.5, 0.05]),
     ("eval", ["scalar", "vec", "blobs"]),
-    ("target", ["gauss", "bimodal"]),
+    ("target", ["gauss", "bimodal", "weak"]),
 ]
 
 
